@@ -61,11 +61,15 @@ CHECKS = {
                  "(scheduler state + one bounded Output history with eviction per output) every pull performed inside an "
                  "update of any run is answered ok - no time-range error, no no-data error, served from inside the published "
                  "range - by composing updateRec_sound, need_direct and C09's eviction invariant (update_pulls_ok preserves "
-                 "the network invariant NInv). Scope of run_pulls_ok: time-stepped components, links through pass-through / "
-                 "fixed-delay adapters (requests that reach the source output); push-based adapters answer from their own "
-                 "buffer (C11). Tied to schedule.py / sdk/output.py / adapters by (i) the update-sequence correspondence "
+                 "the network invariant NInv), and run_pulls_okC extends it to links with a push-based (time-caching) adapter: "
+                 "the adapter is a relay node with its own bounded buffer that pulls the source when notified; every pull of "
+                 "the consumers and every pull of the notified adapters is answered ok (update_pulls_okC: three phases - "
+                 "pulls, publications, notification of the relays by induction over the relay list). Scope: time-stepped "
+                 "components, one push-based adapter per link, pass-through adapters upstream and pass-through / fixed-delay "
+                 "adapters downstream of it. Tied to schedule.py / sdk/output.py / adapters by (i) the update-sequence correspondence "
                  "of real Composition.run against the model's run loop and (ii) a network correspondence: the retained "
-                 "history length of every output after every update of real runs against netRunLoop; plus an "
+                 "history length of every output - and of every push-based adapter's buffer - after every update of real runs "
+                 "against netRunLoop / netRunLoopC; plus an "
                  "implementation-only oracle (no failing pulls). Three known findings are recorded "
                  "(integration-zero-length-repeat, pull-fanout-eviction, dpull-repeated-pull)."),
         "design_ref": "5/C01",
